@@ -51,6 +51,12 @@ func readFrame(r io.Reader, v any) error {
 	return json.Unmarshal(buf, v)
 }
 
+// WorkerMain is the exported worker loop (used by the worker built from package main, C20).
+func WorkerMain() { workerMain() }
+
+// RegisterHandler adds a request kind.
+func RegisterHandler(kind string, f func(json.RawMessage) (any, error)) { handlers[kind] = f }
+
 // workerMain is the loop of the worker process: fd 3 = requests, fd 4 = answers.
 func workerMain() {
 	in := bufio.NewReader(os.NewFile(3, "req"))
@@ -127,6 +133,8 @@ func handle(env *Envelope) any {
 
 // Worker is the parent's handle on a worker process.
 type Worker struct {
+	// Bin is the worker binary (default: this binary).
+	Bin    string
 	mu     sync.Mutex
 	cmd    *exec.Cmd
 	reqW   *os.File
@@ -165,7 +173,11 @@ func (w *Worker) start() error {
 	if err != nil {
 		return err
 	}
-	cmd := exec.Command(os.Args[0], "-test.run", "^TestWorker$", "-test.timeout", "0")
+	bin := os.Args[0]
+	if w.Bin != "" {
+		bin = w.Bin
+	}
+	cmd := exec.Command(bin, "-test.run", "^TestWorker$", "-test.timeout", "0")
 	cmd.Env = append(os.Environ(), "VERIF_WORKER=1", "GOMAXPROCS="+envOr("VERIF_WORKER_PROCS", "4"))
 	cmd.ExtraFiles = []*os.File{reqR, ansW}
 	w.stderr = &tailBuffer{}
@@ -385,6 +397,34 @@ func CallC12(req *vrun.C12Request) *vrun.C12Answer {
 			panic("harness failure: " + cerr.Harness)
 		}
 		return &vrun.C12Answer{ProcessDeath: cerr.Death}
+	}
+	if ans.HarnessErr != "" {
+		panic("harness failure: " + ans.HarnessErr)
+	}
+	return ans
+}
+
+// ExitCodeAnswer is the reply of the package-main worker.
+type ExitCodeAnswer struct {
+	ExitCode   int    `json:"exit_code"`
+	Stdout     string `json:"stdout"`
+	HarnessErr string `json:"harness_err,omitempty"`
+	Panic      string `json:"panic,omitempty"`
+}
+
+var mainWorker = &Worker{}
+
+// CallExitCode runs cmd/arcaflow's runWorkflow in the worker built from package main.
+func CallExitCode(req *vrun.EngineRequest) *ExitCodeAnswer {
+	if mainWorker.Bin == "" {
+		mainWorker.Bin = envOr("VERIF_MAIN_BIN", "build/main.test")
+	}
+	ans := &ExitCodeAnswer{}
+	if cerr := mainWorker.Call("exitcode", req, ans, 60*time.Second); cerr != nil {
+		if cerr.Harness != "" {
+			panic("harness failure: " + cerr.Harness)
+		}
+		return &ExitCodeAnswer{Panic: cerr.Death}
 	}
 	if ans.HarnessErr != "" {
 		panic("harness failure: " + ans.HarnessErr)
